@@ -13,7 +13,7 @@ EXPLANATION = (
     "the `parts.len() == num_parts` edge and passes finish_delta(tick); the result is concatenated from "
     "`parts.values()` (key order).  R4 (sender/receiver split): delta_chunks cuts at MAX_SNAPSHOT_PACKSIZE with a "
     "ceiling division, sends `tick - base` and the receiver reconstructs `tick.wrapping_sub(wire)` in all three "
-    "message forms.  R1b: can_receive consults the transfer in progress before the last completed tick.  Not decided: exactly-once delivery over all permutations (schedule level)."
+    "message forms.  R3b: snap refuses exactly num_parts < 0, num_parts > 32, part < 0 and part >= num_parts.  R1b: can_receive consults the transfer in progress before the last completed tick.  Not decided: exactly-once delivery over all permutations (schedule level)."
 )
 ASSUMPTIONS = ["VecMap::values iterates in key order (vec_map documentation)"]
 
@@ -29,6 +29,7 @@ def run(ctx, rep):
     completion(prog, rep)
     sender(prog, rep)
     can_receive_priority(ctx.prog, rep)
+    part_bounds(ctx.prog, rep)
 
 
 def old_ticks_inert(prog, rep, fn):
@@ -346,3 +347,19 @@ def can_receive_priority(prog, rep):
            "the in-progress transfer's tick is consulted first, the last completed tick only when nothing is in progress" if ok else
            "can_receive consults the last completed tick before (or regardless of) the transfer in progress: a stray part newer than the last completed "
            "tick but older than the transfer in progress is accepted and wipes it (%s)" % sem, b.loc())
+
+
+def part_bounds(prog, rep):
+    """R3b: the exact relations under which DeltaReceiver::snap refuses a part for its announced geometry: more than 32 parts
+    (32 is accepted: 32 x 900 bytes is the largest snapshot the sender splits), a negative part number, a part number not
+    below the announced count"""
+    from .common import exact_clauses, _txt, _is0
+    b = prog.one(R + "snap")
+    ir = IR(b)
+    table = [
+        ("num_parts is negative", lambda a: _txt(a).endswith(".num_parts"), _is0, "Lt", 1),
+        ("num_parts exceeds 32", lambda a: _txt(a).endswith(".num_parts"), lambda y: y[0] == "c" and y[1] == 32, "Gt", 1),
+        ("the part number is negative", lambda a: _txt(a).endswith(".part"), _is0, "Lt", 1),
+        ("the part number is not below num_parts", lambda a: _txt(a).endswith(".part"), lambda y: _txt(y).endswith(".num_parts"), "Ge", 1),
+    ]
+    exact_clauses(rep, "R3b-part-bounds", "snap", b, ir, table, floor=4)
